@@ -17,6 +17,7 @@ def check(tree, rep, tier='quick', seed=0):
     rep.assumptions = ['NOT decided: exact round trip of every float/int/str value (numeric formatting, multi-line text) - runtime values']
     core = get_core(tree)
     R.k22e_integer_lines_read_back_exactly(core, rep)
+    R.k22f_solution_written_unfiltered(core, rep)
     R.k11e_parser_options(core, rep)
     R.k11g_parser_objects_untouched(core, rep)
     R.k22_solution_agreement(core, rep)
